@@ -138,13 +138,14 @@ Proof.
   intros Hw. pose proof (week_of_dn_spec md n) as H. destruct (week_of_dn md n) as [[wy w0] d0].
   destruct H as [V E]. rewrite <- E. destruct (week_range _ _ _ _ V) as (R1 & R2 & _).
   pose proof (weeks_in_spec md wy) as [_ B0]. pose proof (weeks_in_spec md (wy + 1)) as [_ B1].
+  assert (WX : wmax md <= 53) by (destruct md; cbn [wmax]; lia).
   destruct (Z_le_dec w0 w) as [L0|L0]; [destruct (Z_le_dec w (weeks_in md wy)) as [L1|L1]|].
   - (* this week-year *)
     destruct (week_target md wy w0 d0 0 w V ltac:(lia) ltac:(rewrite Z.add_0_r; lia) ltac:(auto)) as (J & BJ & F).
     exists J. split; [lia | exact F].
   - (* this week-year is too short for w: w is the greatest week number *)
     assert (Wm : w = wmax md).
-    { destruct md; cbn [wmax] in *; try lia; pose proof (weeks_min _ wy ltac:(discriminate)); lia. }
+    { pose proof (weeks_min md wy) as WM. destruct md; cbn [wmax] in *; try lia; specialize (WM ltac:(discriminate)); lia. }
     destruct (long_within md wy) as (k & Hk & Lk).
     destruct (week_target md wy w0 d0 k w V ltac:(lia) ltac:(lia) ltac:(intros ->; rewrite Z.add_0_r in Lk; lia)) as (J & BJ & F).
     exists J. split; [lia | exact F].
@@ -153,7 +154,7 @@ Proof.
     + destruct (week_target md wy w0 d0 1 w V ltac:(lia) ltac:(lia) ltac:(intros; lia)) as (J & BJ & F).
       exists J. split; [lia | exact F].
     + assert (Wm : w = wmax md).
-      { destruct md; cbn [wmax] in *; try lia; pose proof (weeks_min _ (wy + 1) ltac:(discriminate)); lia. }
+      { pose proof (weeks_min md (wy + 1)) as WM. destruct md; cbn [wmax] in *; try lia; specialize (WM ltac:(discriminate)); lia. }
       assert (w0 <= w).
       { destruct md; cbn [wmax] in *; try lia. pose proof (weeks_max360 wy). lia. }
       lia.
@@ -209,14 +210,16 @@ Proof.
   - destruct (doy_target md y dd 0 d V ltac:(lia) ltac:(rewrite Z.add_0_r; lia) ltac:(auto)) as (J & BJ & F).
     exists J. split; [lia | exact F].
   - (* d = 366 in a common year of the Gregorian calendar *)
-    assert (md = G /\ d = 366) as [-> ->] by (destruct md; cbn [dmax ylen] in *; try lia; split; [reflexivity|lia]).
+    assert (md = G /\ d = 366) as [-> ->]
+      by (destruct md; cbn [dmax ylen] in *; try lia; destruct (is_leap y), (is_leap (y + 1)); split; try reflexivity; lia).
     destruct (leap_within y) as (k & Hk & Lk).
     destruct (doy_target G y dd k 366 V ltac:(lia) ltac:(cbn [ylen]; rewrite Lk; lia) ltac:(intros ->; rewrite Z.add_0_r in Lk; cbn [ylen] in L1; rewrite Lk in L1; lia)) as (J & BJ & F).
     exists J. split; [lia | exact F].
   - destruct (Z_le_dec d (ylen md (y + 1))) as [L1|L1].
     + destruct (doy_target md y dd 1 d V ltac:(lia) ltac:(lia) ltac:(intros; lia)) as (J & BJ & F).
       exists J. split; [lia | exact F].
-    + assert (md = G /\ d = 366) as [-> ->] by (destruct md; cbn [dmax ylen] in *; try lia; split; [reflexivity|lia]).
+    + assert (md = G /\ d = 366) as [-> ->]
+      by (destruct md; cbn [dmax ylen] in *; try lia; destruct (is_leap y), (is_leap (y + 1)); split; try reflexivity; lia).
       cbn [ylen] in *. destruct (is_leap y); lia.
 Qed.
 
